@@ -80,3 +80,23 @@ func verifDump(dd []*directive.Directive) []*VerifNode {
 	}
 	return out
 }
+
+// VerifContextChain returns the chain of open context directives (outermost first)
+// as (kind, explicit) pairs: the state the context resolver will use next.
+func (core *JApiCore) VerifContextChain() []VerifCtx {
+	var rev []VerifCtx
+	for d := core.currentContextDirective; d != nil; d = d.Parent {
+		rev = append(rev, VerifCtx{Kind: d.Type().String(), Explicit: d.HasExplicitContext})
+	}
+	out := make([]VerifCtx, 0, len(rev))
+	for i := len(rev) - 1; i >= 0; i-- {
+		out = append(out, rev[i])
+	}
+	return out
+}
+
+// VerifCtx is one element of the open-context chain.
+type VerifCtx struct {
+	Kind     string `json:"kind"`
+	Explicit bool   `json:"explicit"`
+}
